@@ -14,6 +14,7 @@ def parse_h3_case(lines):
         if l.startswith("RS "): c["gi"].setdefault("RS", []).append(l[3:].strip())
         if l.startswith("ST "): c["dfa"].append(l)
         if l.startswith("DFA "): c["dfa_size"] = l.split()[1]
+        if l.startswith("LEXVALID "): c["lexvalid"] = l.split()[1] == "true"
     return c
 
 class H3Run:
